@@ -1127,7 +1127,9 @@ impl<'arena> PrettyFormatter<'arena> {
             | Pattern::Var(definition) => self.definition(*definition),
             | Pattern::Named(Named(field, inner)) => self.named_pattern(pattern, field, *inner),
             | Pattern::Ctor(Ctor(name, inner)) => {
-                self.constructor(name).append(self.pattern_constructor_argument(*inner))
+                self.constructor(name)
+                    .append(self.constructor_argument_gap((*inner).into()))
+                    .append(self.pattern_constructor_argument(*inner))
             }
             | Pattern::Project(ProjectionPattern(field, inner)) => {
                 self.projection_pattern(pattern, field, *inner)
@@ -1430,9 +1432,10 @@ impl<'arena> PrettyFormatter<'arena> {
             | Term::Block(Block(body)) => self.block(term, "begin", *body, "end"),
             | Term::Data(Data { arms }) => self.block_like(self.data(term, arms)),
             | Term::CoData(CoData { arms }) => self.block_like(self.codata(term, arms)),
-            | Term::Ctor(Ctor(name, body)) => {
-                self.constructor(name).append(self.term_constructor_argument(*body))
-            }
+            | Term::Ctor(Ctor(name, body)) => self
+                .constructor(name)
+                .append(self.constructor_argument_gap((*body).into()))
+                .append(self.term_constructor_argument(*body)),
             | Term::Match(Match { scrut, arms }) => {
                 self.block_like(self.matcher(term, *scrut, arms))
             }
@@ -1590,6 +1593,16 @@ impl<'arena> PrettyFormatter<'arena> {
                 BoundaryLayout::aligned(" ="),
                 self.annotated_term_fragment(inner),
             )),
+        }
+    }
+
+    /// A constructor and its argument are written without a space, but `-` is an
+    /// identifier character: a comment leading the argument must not touch the name.
+    fn constructor_argument_gap(&self, argument: EntityId) -> RcDoc<'arena> {
+        if self.arena.trivia.leading_comments(argument).is_empty() {
+            RcDoc::nil()
+        } else {
+            RcDoc::text(" ")
         }
     }
 
